@@ -113,9 +113,11 @@ def _lemma(chk, prog):
             chk.ok('L', tag, 'only new/new_view build it; min=%d (the guard itself is C12.O5)' % mn)
 
 
-def audit_scope(chk, prog, cg, roots, scope, tier, rid_s, rid_t, allow, boundary, inline_depth=3, caller_depth=3):
+def audit_scope(chk, prog, cg, roots, scope, tier, rid_s, rid_t, allow, boundary, inline_depth=3, caller_depth=3, hints=(), invariants=()):
     A = Audit(prog, inline_depth=inline_depth, caller_depth=caller_depth + (1 if tier == 'thorough' else 0))
     A.cg = cg
+    A.eng.range_hints = [(re.compile(rx), lo, hi) for (rx, lo, hi) in hints]
+    A.eng.invariants = list(invariants)
     A.analyse_all(scope)
     for p_ in scope:
         chk.fn_seen(p_)
